@@ -1113,6 +1113,16 @@ class Engine:
             raise Unsupported("call of constant container")
         if isinstance(fv, Opq):
             self.opq_ctr = getattr(self, "opq_ctr", 0) + 1
+            mname = None
+            try:
+                dn = fv.t.decl().name()
+                mname = dn[5:] if dn.startswith("attr_") else None
+            except Exception:  # noqa
+                mname = None
+            mspec = (self.opaque or {}).get("." + mname) if mname else None
+            if mspec is not None:
+                # a method of an opaque object whose result type the contract declares (e.g. ".read": str): logged under its own name
+                return self.opaque_apply("." + mname, list(args), dict(kwargs), st)
             r = Opq(fresh("r_call#%d" % self.opq_ctr, Obj), None)
             st.log.append({"callee": "<method of opaque object>", "args": list(args), "kwargs": dict(kwargs), "result": r, "effect": False, "on": fv})
             self.assumed.add("method calls on opaque objects: result unconstrained")
